@@ -40,7 +40,7 @@ func init() {
 		Level:       "Static rules deciding named necessary conditions (no un-clamped look-ahead into the decompressed block, every access behind num < numDocs, the visitor's result alone controls the loop, writers and reader use the same block size). Partial: grouping/order of values and the re-encode arithmetic are value properties and not decided.",
 		Explanation: "LOOKAHEAD-CLAMP enumerates every []byte slice expression whose upper bound is offset+constant and requires the bound to be clamped by a comparison with len/cap of the same buffer (siblings copyStoredDocs and getDocStoredOffsets are both covered); VISIT-GUARD proves by dominance that every read and every visitor call in visitDocument is behind num < footer.numDocs and that the loop variable is defined only by the visitor's result; BLOCK-SELECT folds the constant passed to newChunkedDocumentCoder by both writers and the reader's divisor and requires them equal. ITER-SCRATCH shows that on every path through one document iteration the meta buffer is Reset and the data slice restarted before the record is added; SCRATCH-OWNED covers the decompression buffers.",
 		NotCovered:  "grouping and order of delivered values, correctness of the merge re-encode and of the byte-copy path arithmetic",
-		Uses:        []RuleUse{{"STALE-LEN", ""}, {"APPEND-RESULT-USED", ""}, {"TRAILER-ROLES", ""}, {"ITER-SCRATCH", ""}, {"SCRATCH-LENT", ""}, {"SCRATCH-OWNED", ""}, {"LOOKAHEAD-CLAMP", ""}, {"VISIT-GUARD", ""}, {"BLOCK-SELECT", ""}, {"STORED-OFFSET-SOURCE", ""}, {"ADVANCE-LOST", ""}, {"BLOCK-CURSOR", ""}, {"LOOP-BOUND-AGREE", ""}, {"RESET-COMPLETE", ""}, {"ESCAPE-FRESH", ""}},
+		Uses:        []RuleUse{{"STALE-LEN", ""}, {"APPEND-RESULT-USED", ""}, {"TRAILER-ROLES", ""}, {"ITER-SCRATCH", ""}, {"SCRATCH-LENT", ""}, {"SCRATCH-OWNED", ""}, {"LOOKAHEAD-CLAMP", ""}, {"VISIT-GUARD", ""}, {"BLOCK-SELECT", ""}, {"STORED-OFFSET-SOURCE", ""}, {"ADVANCE-LOST", ""}, {"VALUE-RECORD-COMPLETE", ""}, {"BLOCK-CURSOR", ""}, {"LOOP-BOUND-AGREE", ""}, {"RESET-COMPLETE", ""}, {"ESCAPE-FRESH", ""}},
 	})
 	prop(&Property{
 		ID:          "C08",
@@ -49,7 +49,7 @@ func init() {
 		Level:       "Static rules deciding named necessary conditions of the count/never-panic clauses. Partial: FST range/automaton semantics and term order live in vellum and are not analysed.",
 		Explanation: "INIT-BEFORE-READ proves every PostingsList.read receiver is a freshly re-initialised list (so a count can never inherit the 1-hit flag of the previous term); NIL-RESULT derives the functions that may return (nil,nil) and proves every dereference or escaping interface conversion of such a result crossed a nil test on all paths (unknown field => emptyDictionary, never a nil pointer in an interface); NIL-FIELD proves every method call on Dictionary.fst/fstReader is dominated by a nil test; INSERT-GUARD proves terms are inserted only with postingsOffset>0 and writePostings returns 0 for empty bitmaps; ONEHIT-AWARE proves every content use of PostingsList.postings also dispatches on normBits1Hit. DICT-SEALED shows a Dictionary is written only while under construction (provenance Fresh), so several iterators / postings lists of one Dictionary share no mutable state.",
 		NotCovered:  "vellum FST range/automaton semantics, term order, numeric correctness of counts under exclusion bitmaps",
-		Uses:        []RuleUse{{"DICT-SEALED", ""}, {"INIT-BEFORE-READ", ""}, {"NIL-RESULT", ""}, {"NIL-FIELD", ""}, {"INSERT-GUARD", ""}, {"ONEHIT-AWARE", ""}, {"PARALLEL-APPEND", ""}, {"TERM-BOUNDARY", ""}, {"ENUM-SKIP-GUARD", ""}, {"SINGLETON-GUARD", ""}},
+		Uses:        []RuleUse{{"DICT-SEALED", ""}, {"INIT-BEFORE-READ", ""}, {"REUSE-THROUGH-INIT", ""}, {"LIST-READ-GUARD", ""}, {"NIL-RESULT", ""}, {"NIL-FIELD", ""}, {"INSERT-GUARD", ""}, {"ONEHIT-AWARE", ""}, {"PARALLEL-APPEND", ""}, {"TERM-BOUNDARY", ""}, {"ENUM-SKIP-GUARD", ""}, {"SINGLETON-GUARD", ""}},
 	})
 	prop(&Property{
 		ID:          "C18",
@@ -127,7 +127,7 @@ func init() {
 		Level:       "Static rules showing that no state CAN carry over from a previous use — the structural content of the property — for every sequence of lookups: each reusable struct's re-initialiser is checked field by field (fail-closed on new fields). Equality of results itself is a value property and is not decided.",
 		Explanation: "RESET-COMPLETE checks the re-initialisers of PostingsList, PostingsIterator, chunkedIntDecoder, docValueReader (cloneInto), chunkedIntCoder, chunkedContentCoder, interim, docVisitState and visitDocumentCtx: whole-struct clear + only sanitised restores, or every field stored/Reset on every path, whole-range zeroing of retained slices. INIT-BEFORE-READ shows a postings list is always re-initialised before read(). CACHE-COHERENT shows every chunk loader re-establishes all chunk-derived fields before a successful return, STATE-AFTER-FALLIBLE that it does so only after the fallible steps. SINGLETON-GUARD shows writes can never reach the shared empty singletons. REUSED-POSTING (the reused Posting is fully re-established per call) and SCRATCH-OWNED (a decompression result is cached only by the owner of its destination buffer) cover two more carriers of state between uses.",
 		NotCovered:  "equality of results with fresh objects (value property); correctness of what the re-initialised object then computes",
-		Uses:        []RuleUse{{"SCRATCH-OWNED", ""}, {"RESET-COMPLETE", ""}, {"INIT-BEFORE-READ", ""}, {"CACHE-COHERENT", ""}, {"STATE-AFTER-FALLIBLE", ""}, {"SINGLETON-GUARD", ""}, {"BITMAP-OWNERSHIP", ""}, {"REUSED-POSTING", ""}},
+		Uses:        []RuleUse{{"SCRATCH-OWNED", ""}, {"RESET-COMPLETE", ""}, {"INIT-BEFORE-READ", ""}, {"REUSE-THROUGH-INIT", ""}, {"LIST-READ-GUARD", ""}, {"CACHE-COHERENT", ""}, {"STATE-AFTER-FALLIBLE", ""}, {"SINGLETON-GUARD", ""}, {"BITMAP-OWNERSHIP", ""}, {"REUSED-POSTING", ""}},
 	})
 	prop(&Property{
 		ID:          "C14",
